@@ -27,8 +27,14 @@ ConcreteSupported(cfg) == cfg.words \in ValidCounts
 
 \* the `new` command: c = [length, prefix, vpassword, vindex, vpath, threads], texts, "" = option not given
 SmallNat(cs) == AllDigit(cs) /\ Len(cs) >= 1 /\ Len(cs) <= 4 /\ (Len(cs) = 1 \/ cs[1] # 48)
+\* --language: only English exists; the name is matched case-insensitively (Language::from_str)
+LanguageOf(c) == IF "language" \in DOMAIN c THEN c.language ELSE ""
+LanguageOk(c) ==
+  LET cs == StrToUtf8(LanguageOf(c))
+  IN  cs = <<>> \/ [i \in 1..Len(cs) |-> IF cs[i] >= 65 /\ cs[i] <= 90 THEN cs[i] + 32 ELSE cs[i]] = StrToUtf8("english")
 NewArgv(c) ==
-  <<"new">> \o (IF c.length # "" THEN <<"-n", c.length>> ELSE <<>>)
+  <<"new">> \o (IF LanguageOf(c) # "" THEN <<"--language", LanguageOf(c)>> ELSE <<>>)
+           \o (IF c.length # "" THEN <<"-n", c.length>> ELSE <<>>)
            \o (IF c.prefix # "" THEN <<"--vanity-prefix", c.prefix>> ELSE <<>>)
            \o (IF c.vpassword # "" THEN <<"--vanity-password", c.vpassword>> ELSE <<>>)
            \o (IF c.vindex # "" THEN <<"--vanity-account-index", c.vindex>> ELSE <<>>)
